@@ -100,4 +100,10 @@ def blockVars (modified liveIn liveOut definedIn globals nonlocals : List String
   let scopeVars := sortBy (keyLe inputOnly) (basic ++ comp)
   { scopeVars, undefined, nouts := scopeVars.length - inputOnly.length, inputOnly }
 
+/-- A state variable is an OUTPUT of the statement unless it is a simple name that is live into the statement and not
+live out of it (`input_only = basic_scope_vars & live_in - live_out`).  Composite symbols are always outputs; a simple
+output that is neither live in nor live out is a name the enclosing function declares `global` / `nonlocal`. -/
+def isOutput (liveIn liveOut : List String) (v : String) : Bool :=
+  isComposite v || !liveIn.contains v || liveOut.contains v
+
 end Malt.Conv.BlockVars
